@@ -61,5 +61,9 @@ CarrierOK == E.k = "carrier" =>
 \* "never loops without consuming input": every value of a decoded result occupies at least one byte of the
 \* document, so a decoder that reports success cannot have produced more values than it consumed bytes (a list of
 \* n > 0 elements of type End would be n values in no bytes)
+\* a destination that was used before: decoding a document into a value that already holds lists (of compounds with
+\* more keys, of maps, of interface values of another kind) gives what decoding it into a fresh value gives - a list
+\* replaces the destination's list, nothing of the earlier elements shows through
+UsedOK == E.k = "decused" => (E.panicked = FALSE /\ E.same)
 NoAmplify == (E.k \in {"dec", "carrier"} /\ E.ok /\ E.nodes >= 0) => E.nodes <= E.n
 =============================================================================
